@@ -10,8 +10,23 @@ finding (probe=1) and reports which ReadFrom behaviour the tree under test has;
            finding suppresses nothing (any spec failure is a violation)
   other -> treated like cur (the correspondence check then reports the difference).
 Both theorem files are compiled on every run (they are part of the area's build).
+
+Tie A (docs/GenRec.md): at the start of every run harness/cmd/recgen re-translates the
+bodies of the recorder's methods from $VERIF_REPO/response_writer.go into
+coq/C14/GenRec.v; BridgeRec.v / BridgeRecFixed.v prove each generated method equal to
+the hand-written model for all arguments and Props_GenRec.v restates the C14 theorems
+over the recorder built from the generated methods only.  A refusal of recgen or a
+bridge lemma that no longer checks is a "generated-model" problem (VIOLATION; the
+correspondence check then looks for a concrete input).
+  fixed -> Props_GenRec.v (ReadFrom bridged against ModelFixed.rec_read_from_fixed)
+  cur   -> Props_GenRec_cur.v (every method but ReadFrom bridged; ReadFrom only shown to
+           be one of the two bodies the models know; the fixed-model corollaries are skipped)
 """
+import filecmp
 import os
+import re
+import shutil
+import time
 
 import lib
 from lib import TieCheck
@@ -28,6 +43,7 @@ class C14(TieCheck):
     harness = "c14"
     extra_trust = [
         "model: coq/C14/Model.v transliterates recorder (response_writer.go:81-288) and String/Blob/Stream/Redirect (context.go:295-327); coq/C14/ModelFixed.v = the same with proposed_fixes/C14_readfrom.patch; spec: coq/C14/Spec.v",
+        "tie A (docs/GenRec.md): the 15 methods of recorder are re-translated from response_writer.go on every run (harness/cmd/recgen -> coq/C14/GenRec.v) and proved equal to Model.v / ModelFixed.v for all arguments (BridgeRec.v, BridgeRecFixed.v, Props_GenRec.v); trusted there: recgen's whitelist of statement shapes and coq/C14/RecSem.v",
         "the underlying http.ResponseWriter is an explicit automaton with an arbitrary answer policy (universally quantified in the theorems); the harness instantiates it with recording writers of 10 kinds",
         "net/http's Redirect body and fmt.Fprintf formatting are oracles: the harness passes the bytes they produce to the model",
         "nested routers: coq/C14/Nested.v stacks the child's recorder (same transliteration) on the parent's recorder of Model.v; tied by the nested stream of the harness (child router served through the parent's Context.Writer(), observed from the parent's writer)",
@@ -40,6 +56,79 @@ class C14(TieCheck):
 
     def harness_args(self, tier):
         return ["tier=" + tier]
+
+    # ---- tie A: the recorder's methods regenerated from the source on every run
+    TIE_FILES = ["GenRec.v", "BridgeRec.v", "ExamplesRec.v", "BridgeRecFixed.v", "Props_GenRec.v", "Props_GenRec_cur.v"]
+    FIXED_ONLY = ["BridgeRecFixed.v", "Props_GenRec.v"]
+    mode = "fixed"
+
+    def area_files(self):
+        d = os.path.join(lib.COQ, self.area)
+        return [l.strip() for l in open(os.path.join(d, "_CoqProject")) if l.strip().endswith(".v")]
+
+    def targets_without(self, excluded):
+        return [f[:-2] + ".vo" for f in self.area_files() if f not in excluded]
+
+    def broken_lemmas(self, log):
+        """names of the lemmas / theorems in which coqc stopped"""
+        out = []
+        for f, ln in re.findall(r'File "\./([A-Za-z0-9_]+\.v)", line (\d+)', log):
+            try:
+                lines = open(os.path.join(lib.COQ, self.area, f)).read().splitlines()[:int(ln)]
+            except OSError:
+                continue
+            for l in reversed(lines):
+                m = re.match(r"\s*(Lemma|Theorem|Example|Definition)\s+([A-Za-z0-9_']+)", l)
+                if m:
+                    if f + ":" + m.group(2) not in out:
+                        out.append(f + ":" + m.group(2))
+                    break
+        return out
+
+    def gen(self, tier):
+        ok0, lg0 = super().gen(tier)
+        t0 = time.time()
+        ok, lg = self.gen_rec()
+        lib.log("C14: tie A (recgen + bridge): %s in %.1fs" % ("ok" if ok else "BROKEN", time.time() - t0))
+        if not ok:
+            # go on without the tie-A files: the rest of the check (model, theorems, correspondence,
+            # search for a concrete input) is unaffected; the problem itself is reported as generated-model
+            plist = self.props if isinstance(self.props, (list, tuple)) else [self.props]
+            self.props = [p for p in plist if not p.startswith("Props_GenRec")]
+            self.coq_targets = self.targets_without(self.TIE_FILES)
+        return ok0 and ok, (lg0 + "\n" if lg0 else "") + lg
+
+    def gen_rec(self):
+        g, lg = lib.build_harness("recgen")
+        dst = os.path.join(lib.COQ, self.area, "GenRec.v")
+        if g is None:
+            open(dst, "w").write("(* REFUSED: harness/cmd/recgen does not build *)\n")
+            return False, "tie A: recgen does not build:\n" + lg[-2000:]
+        work = os.path.join(lib.WORKROOT, self.pid)
+        os.makedirs(work, exist_ok=True)
+        new = os.path.join(work, "GenRec.v.new")
+        rc, o = lib.sh([g, "repo=" + os.path.abspath(lib.REPO), "out=" + new], env=lib.go_env(), timeout=600)
+        if not os.path.exists(new):
+            open(new, "w").write("(* REFUSED: recgen wrote nothing (rc=%d) *)\n" % rc)
+        with lib.Lock("coq." + self.area):
+            # same text: keep the file (and its .vo) as it is; anything else replaces it -- never stale
+            if not (os.path.exists(dst) and filecmp.cmp(new, dst, shallow=False)):
+                shutil.copyfile(new, dst)
+        tie = ["BridgeRec.vo", "ExamplesRec.vo", "Props_GenRec_cur.vo"]
+        if self.mode == "fixed":
+            tie += ["BridgeRecFixed.vo", "Props_GenRec.vo"]
+        okb, lb = lib.coq_build(self.area, targets=tie)
+        if rc != 0:
+            refused = "\n".join(l for l in o.splitlines() if "REFUSED" in l)
+            bl = self.broken_lemmas(lb)
+            return False, ("tie A (docs/GenRec.md): recgen REFUSED the recorder of %s (rc=%d):\n%s\n"
+                           "broken bridge lemmas: %s" % (lib.REPO, rc, refused[-1500:] or o[-1500:], ", ".join(bl) or "-"))
+        if not okb:
+            bl = self.broken_lemmas(lb)
+            k = lb.find('File "./')
+            return False, ("tie A (docs/GenRec.md): the recorder methods translated from %s are no longer equal to the "
+                           "hand-written model; broken bridge lemma: %s\n%s" % (lib.REPO, ", ".join(bl) or "?", lb[k:k + 1500] if k >= 0 else lb[-1500:]))
+        return True, o
 
     def detect(self):
         hb, lg = lib.build_harness(self.harness)
@@ -56,8 +145,10 @@ class C14(TieCheck):
         mode = self.detect()
         lib.log("C14: ReadFrom behaviour of %s: %s" % (lib.REPO, mode))
         orig = lib.known_findings
+        self.mode = mode
+        self.coq_targets = None
         if mode == "fixed":
-            self.props = "Props_C14_fixed.v"
+            self.props = ["Props_C14_fixed.v", "Props_GenRec.v"]
             # the repaired tree must satisfy the specification outright: the finding suppresses nothing
 
             def filtered(pid):
@@ -65,7 +156,12 @@ class C14(TieCheck):
             lib.known_findings = filtered
             lib.log("C14: fix detected: finding %s no longer reproduces; checking ModelFixed.v / Props_C14_fixed.v at full strength" % FINDING)
         else:
-            self.props = "Props_C14.v"
+            self.props = ["Props_C14.v", "Props_GenRec_cur.v"]
+            # BridgeRecFixed.v / Props_GenRec.v are about the ReadFrom of the `fix:` commit: not built here
+            self.coq_targets = self.targets_without(self.FIXED_ONLY)
+            lib.log("C14: tie A: pre-fix ReadFrom: every recorder method except ReadFrom is bridged for all arguments "
+                    "(Props_GenRec_cur.v); gen_rec_read_from is only shown to be one of the two modelled bodies; "
+                    "the fixed-model corollaries of Props_GenRec.v are skipped")
         try:
             return super().run(tier, seed, replay)
         finally:
